@@ -615,7 +615,7 @@ PROPS = {
     ),
     "C20": dict(
         lean="AnyDB.Props.C20",
-        lean_extra=["AnyDB.Props.C20Undo"],
+        lean_extra=["AnyDB.Props.C20Undo", "AnyDB.Props.C20Comp"],
         runs=[
             Run("vec", "access-plain", ["--mode", "plain", "--access", "--reads"], (56, 40), (280, 110), proj_vec_x, ["C20", "panic"], vec_access_features),
             Run("vec", "access-rollback", ["--mode", "rollback", "--access", "--reads"], (84, 50), (400, 110), proj_vec_x, ["C20", "panic"], vec_access_features),
@@ -624,7 +624,7 @@ PROPS = {
         rule=VEC_RULE + "; the guarded access tap is on: every Reader::unchecked_read (offset, length), every pointer handed out by Reader::prefixed, every raw pointer dereference of the vecdb read sites (read_from_ptr of both raw strategies, the two bulk slices, the zero-copy reference read) and every positioned read of the file-IO sources is recorded and, after each request, compared with the start and length of the region it was made for (the reader's snapshot, and the current length for read-only requests); about one request in six is `clonereads`: every range/point/cursor/sorted API of a read-only clone plus both stored-only scan back-ends, in ANY state (expanded, truncation pending, deleted slots, dirty); one in five `reads` (the C08 battery on the read-write vector)",
         assumptions=["histories are those of C03 (plain edits and writes) and of C04 (edits, commits, rollbacks, re-imports, damaged records); a plain write()/flush() between a commit and the rollback of that commit is in neither (the retained record no longer describes the region) and is not generated — see DESIGN.md, observation O1",
                      "single-threaded: a reader's length snapshot equals the region's length at the time of the read"],
-        level_text="Lean 4 theorems over the vector model in which every element fetch from a raw data region goes through diskRead (flag = slot at or beyond the end of the region) and compressed reads fetch whole page slices: read-only clones, VecReader and the stored mmap/file-IO sources address min(stored_len, elements in the region) and therefore cannot leave the region in ANY state (C20_cloneGet, C20_cloneRange, C20_cloneReads; C20_unclamped_counterexample = the F6 state shows the clamp is what makes this true); the read-write vector's point read, full logical read and take stay inside whenever every slot between the end of the region and the stored length is deleted or overlaid (Covered: C20_getAny, C20_items_raw, C20_take); Covered holds when stored_len is within the region, which every successful write() establishes from ANY state, expanded ones included (C20_writeRaw_le over the staged write, C20_after_write), and push, truncate, update, delete, take and fill preserve it (covered_*); in a gap-free page chain from the header to the end of the data region every page slice lies inside the region (C20_pages with C07_write_chained). Across a rollback (Props/C20Undo.lean): after undoing any record whose modifications address stored slots and whose truncated tail starts inside the region and reaches up to the restored stored length — which is what the matching commit writes (C04's faithful_recordOf) — Covered holds again (C20_undo_covered, via the entry-by-entry overlay characterisation undo_raw_overlay); for records outside that shape (several rollbacks in a row, damaged records) the step is validated on every rollback of the C04/C16 streams by the access oracle. Tied to the code by the access tap on the real crates under all C03/C04 histories and by comparing the out-of-region flag with the model's after every request.",
+        level_text="Lean 4 theorems over the vector model in which every element fetch from a raw data region goes through diskRead (flag = slot at or beyond the end of the region) and compressed reads fetch whole page slices: read-only clones, VecReader and the stored mmap/file-IO sources address min(stored_len, elements in the region) and therefore cannot leave the region in ANY state (C20_cloneGet, C20_cloneRange, C20_cloneReads; C20_unclamped_counterexample = the F6 state shows the clamp is what makes this true); the read-write vector's point read, full logical read and take stay inside whenever every slot between the end of the region and the stored length is deleted or overlaid (Covered: C20_getAny, C20_items_raw, C20_take); Covered holds when stored_len is within the region, which every successful write() establishes from ANY state, expanded ones included (C20_writeRaw_le over the staged write, C20_after_write), and push, truncate, update, delete, take and fill preserve it (covered_*); in a gap-free page chain from the header to the end of the data region every page slice lies inside the region (C20_pages with C07_write_chained). Across a rollback (Props/C20Undo.lean): after undoing any record whose modifications address stored slots and whose truncated tail starts inside the region and reaches up to the restored stored length — which is what the matching commit writes (C04's faithful_recordOf) — Covered holds again (C20_undo_covered, via the entry-by-entry overlay characterisation undo_raw_overlay); for records outside that shape (several rollbacks in a row, damaged records) the step is validated on every rollback of the C04/C16 streams by the access oracle. Tied to the code by the access tap on the real crates under all C03/C04 histories and by comparing the out-of-region flag with the model's after every request. C20_comp_history (Props/C20Comp.lean): after EVERY history of pushes, truncations and writes on a compressed vector every page slice lies behind the header and inside the region's current length, and reading the whole vector never leaves the pages (the chain hypothesis of C20_pages is an invariant of every reachable state).",
         level_note="Trusted: Lean kernel + standard axioms; hand-written model; the access tap sites (guarded hook H6: a read site that is not tapped is not seen — the sites are listed in MANIFEST.hooks and cover every pointer/slice/file read in the anchored files); harness. F6 (read-only clones, VecReader and the stored sources read past the region after a rolled-back truncation) was reproduced with the tap and repaired by a fix: commit.",
         technique="Lean 4 proof (clamped readers unconditional; overlay-coverage invariant for the read-write vector; page-chain bound) + access-tap oracle on the real crates over C03/C04 histories with model comparison of the out-of-region flag",
     ),
